@@ -90,8 +90,15 @@ func (p *Path) global(g *ssa.Global) *Value {
 			return v
 		}
 	}
+	return p.allocGlobal(g)
+}
+
+func (p *Path) allocGlobal(g *ssa.Global) *Value {
 	v := new(Value)
 	*v = zero(deref(g.Type()))
+	if g.Pkg != nil && g.Pkg.Pkg.Path() == "crypto/rand" && g.Name() == "Reader" {
+		*v = IfaceVal{T: mkRand, V: markerCell()}
+	}
 	p.globals[g] = v
 	return v
 }
@@ -108,9 +115,7 @@ func (p *Path) runInit(pkg *ssa.Package) {
 	for _, m := range pkg.Members {
 		if g, ok := m.(*ssa.Global); ok {
 			if _, ok := p.globals[g]; !ok {
-				v := new(Value)
-				*v = zero(deref(g.Type()))
-				p.globals[g] = v
+				p.allocGlobal(g)
 			}
 		}
 	}
@@ -323,6 +328,8 @@ func (p *Path) call(th *thread, caller *frame, pos token.Pos, fn Value, args []V
 		return p.callSSA(th, caller, pos, fn.Fn, args, fn.Env)
 	case *ssa.Builtin:
 		return p.callBuiltin(caller, pos, fn, args)
+	case *markerCall:
+		return p.callMarker(th, caller, pos, fn, args)
 	case FuncNil:
 		p.obligation(tFalse, "nil", "nilfunc@"+fnName(caller), "call of nil func value", caller, pos)
 	}
@@ -345,11 +352,15 @@ func (fr *frame) prepareCall(call *ssa.CallCommon, pos token.Pos) (fn Value, arg
 		if recv.T == nil {
 			fr.p.obligation(tFalse, "nil", "nilinvoke@"+fr.fn.String(), "method "+call.Method.Name()+" invoked on nil interface", fr, pos)
 		}
-		f := fr.p.ex.prog.LookupMethod(recv.T, call.Method.Pkg(), call.Method.Name())
-		if f == nil {
-			unsup("method set of %v lacks %s", recv.T, call.Method)
+		if mc := markerMethod(recv.T, call.Method.Name()); mc != nil {
+			fn = mc
+		} else {
+			f := fr.p.ex.prog.LookupMethod(recv.T, call.Method.Pkg(), call.Method.Name())
+			if f == nil {
+				unsup("method set of %v lacks %s", recv.T, call.Method)
+			}
+			fn = f
 		}
-		fn = f
 		args = append(args, recv.V)
 	}
 	for _, a := range call.Args {
